@@ -55,6 +55,15 @@ Definition oappend (acc : list opt) (o : opt) : list opt :=
   if is_ostr o || negb (existsb (opt_eqb o) acc) then acc ++ [o] else acc.
 Definition oextend (acc : list opt) (l : list opt) : list opt := fold_left oappend l acc.
 
+(* Token level.  An element OStr of an option list is ONE argv token: link_options=['-u', 'sym'] is the
+   two elements OStr -u, OStr sym, and a multi-token option is a run of consecutive OStr elements.
+   CcLinker.flags walks the option list in order: a string is appended as it is, each modelled option
+   object (pthread, debug, static) gives one flag, a lib option gives no flag here (its file goes to
+   lib_flags, its directory to the rpath flag that follows).  So the option part of the argv of the
+   link step is the option list without its lib options. *)
+Definition is_olib (o : opt) : bool := match o with OLib _ => true | _ => false end.
+Definition opt_flags (O : list opt) : list opt := filter (fun o => negb (is_olib o)) O.
+
 Section Graph.
   (* forward_opts of a library: present iff [fwd x]; .libs = [deps x], .link_options = [lopts x],
      .packages = [pkgs x] *)
@@ -310,6 +319,9 @@ Section ProjectLink.
   Definition p_final_opts (fixed : bool) (n : nat) : option (list opt) :=
     final_opts pdeps p_fwd (p_lopts proj) (p_pkgs proj) pkgopts fixed (p_fuel proj) (puser n false)
                (pn_pkgs (nth n proj default_pnode)) (pn_lopts (nth n proj default_pnode)).
+  (* the option tokens of the argv of that link, in order (what CcLinker.flags puts before -L/-rpath) *)
+  Definition p_final_flags (fixed : bool) (n : nat) : option (list opt) :=
+    option_map opt_flags (p_final_opts fixed n).
   (* the run-time search path entries of the link of node n: one per shared library on the line *)
   Definition p_rpaths (fixed : bool) (n : nat) : option (list str) :=
     option_map (flat_map (fun l => match lib_variant l with
